@@ -107,7 +107,24 @@ def _digest(m):
     return bip143.witness_digest(m)
 
 
+def _send_tx_signs_ok(*send_args):
+    """the library's own caller of witness_message: bits.tx.send_tx (scripted UTXO source and nonces, harness/c16.py).  True when
+    every segwit signature it places verifies against the BIP143 digest of the transaction it built (independent reference:
+    own parser, own BIP143, OpenSSL ECDSA) - i.e. the outpoint, amount, sequence, scriptCode, version and locktime handed to
+    witness_message are those of the selected input of THAT transaction."""
+    import c16
+    import decimal
+    # (the independent reference does exact Decimal arithmetic: evaluate under the default context whatever the caller's is -
+    #  the environment variants of send_tx itself belong to C16's check)
+    with decimal.localcontext(decimal.Context(prec=60)):
+        v = c16.prop_oracle({"cls": "c11-send", "op": "send", "args": list(send_args), "strict": False})
+    if v is not None:
+        raise AssertionError(v)
+    return True
+
+
 IMPL = {
+    "send_tx_signs_ok": _send_tx_signs_ok,
     "wm_tx": _wm_tx,
     "wm_tx_spec": _wm_tx,
     "wm_tx_float": lambda *a: _wm_tx(*a, as_float=True),
@@ -187,6 +204,11 @@ def in_domain(args):
 def prop_oracle(c):
     """literal statement of C11 on the implementation: for a well-formed transaction, an existing input index and
     one of the six standard types the message is byte-for-byte the BIP143 preimage (and witness_digest its HASH256)"""
+    if c["op"] == "send_tx_signs_ok":
+        import c16
+        import decimal
+        with decimal.localcontext(decimal.Context(prec=60)):
+            return c16.prop_oracle({"cls": "c11-send", "op": "send", "args": list(c["args"]), "strict": False})
     if c["op"] == "wm_edit":
         return c11_seq.oracle(c["args"], in_domain, bip143_preimage)
     if c["op"] not in ("wm_tx", "wm_tx_spec", "wm_tx_float", "wm_tx_named"):
@@ -506,6 +528,24 @@ def gen_cases(rng, tier):
         _both(out, "filler", [ver, ins, outs, lt, rng.randrange(n_in), _amount(rng), _script(rng, rng.randrange(1, 601)),
                               rng.choice(STD_FLAGS)])
     _LAST["cases"] = out
+    # the library's own caller of witness_message (bits.tx.send_tx): segwit senders, amounts whose float product lands just
+    # below the integer (0.29, 0.57, 1.13 BTC ...), several inputs with output indices that differ from their position,
+    # non-default version / locktime, all flags
+    import c16
+    COIN_ = 100000000
+    sats_hard = [29000000, 57000000, 113000000, 58000000, 115000000, 435000000, 123456789]
+    for i, kind in enumerate(c16.SEGWIT_KINDS * (2 if tier == "thorough" else 1)):
+        fl = c16.FLAGS[i % len(c16.FLAGS)]
+        sc = c16._send_case(rng, "send-tx-caller", kind, [rng.randrange(1, 6), 0], [sats_hard[i % len(sats_hard)], sats_hard[(i + 3) % len(sats_hard)]],
+                            frac=1.0, flag=fl, m=1, nkeys=2, version=rng.choice([1, 2]), locktime=rng.choice([0, 17, 500000]))
+        out.append(case("send-tx-caller-%s" % kind, "send_tx_signs_ok", *sc["args"], expect=("ok", True), timeout=120))
+        sc = c16._send_case(rng, "send-tx-caller", kind, [rng.randrange(6)], [sats_hard[(i + 1) % len(sats_hard)]], frac=0.5, flag=fl, m=1, nkeys=1)
+        out.append(case("send-tx-caller-%s" % kind, "send_tx_signs_ok", *sc["args"], expect=("ok", True), timeout=120))
+        # several outputs of ONE funding transaction (same txid, different index, different amounts)
+        sc = c16._send_case(rng, "send-tx-caller", kind, [2, 0, 1], [COIN_ + 1, 3 * COIN_, 29000000], frac=1.0, flag=fl, m=1, nkeys=1,
+                            same_txid=True)
+        out.append(case("send-tx-caller-same-txid-%s" % kind, "send_tx_signs_ok", *sc["args"], expect=("ok", True), timeout=120))
+
     return out
 
 
